@@ -230,4 +230,44 @@ def o_driver_events(case, obs):
     return None
 
 
+def o_handler_cancel(case, obs):
+    """C09, handler side (benches of simgen.gen_cancel): input 1 of the model schedules, for the same
+    time T+d and from the same origin, a canceller (input 3: cancels slot 0) and then a keyed victim
+    (payload v+500, slot 0).  When the canceller was scheduled first and nothing re-keys slot 0 in
+    between, the victim must never run (nor any later occurrence of it)."""
+    meta = case.get("meta")
+    if not meta or not meta.get("first_cancel"):
+        return None
+    d = meta["d"]
+    flat = []
+    for j, o in enumerate(obs):
+        for e in o[2]:
+            f = e.split(":")
+            if f[0] == "H":
+                flat.append((j, int(f[2]), int(f[3]), int(f[4])))
+    for idx, (j, inp, v, t) in enumerate(flat):
+        if inp != 1:
+            continue
+        rekey = False
+        for (j2, inp2, v2, t2) in flat[idx + 1:]:
+            if t2 > t + d:
+                break
+            if inp2 in (1, 2):
+                rekey = True
+            if inp2 == 3 and t2 == t + d:
+                break
+        if rekey:
+            continue
+        # is the canceller's own run observed at T+d (the step may not have been reached)?
+        if not any(i2 == 3 and t2 == t + d for (_, i2, _, t2) in flat[idx + 1:]):
+            continue
+        for (j2, inp2, v2, t2) in flat[idx + 1:]:
+            if inp2 == 0 and v2 == v + 500 and t2 >= t + d:
+                # a later invocation of input 1 with the same payload would legitimately produce v+500 again
+                if any(i3 == 1 and v3 == v and t3 > t for (_, i3, v3, t3) in flat[idx + 1:]):
+                    break
+                return "cmd %d: the event with payload %d ran at %d although an earlier event of the same model and time cancelled its key (scheduled at %d by the handler of payload %d)" % (j2, v2, t2, t, v)
+    return None
+
+
 ALL_SCHED = (o_harness, o_time, o_terminated, o_clock, o_driver_events)
